@@ -3,6 +3,7 @@ spec/LZ.tla (token model, decoder state machine, CompressOK); MC_LZ (model laws,
 constants); impl->spec: real LZ10CompressionFormat::compress output run through the TLA+ decoder machine
 at the real constants by Trace_LZ.  Also hosts the helpers shared by c09/c10/c11 (import c08)."""
 import json
+import os
 import vlib
 
 LEVEL = "model_checking"
@@ -27,20 +28,43 @@ def synth(rec, stderr_key="stderr"):
     return {"kind": rec["outcome"], "out": [], "alloc": "memory allocation of" in err, "msg": err[-200:]}
 
 
-def trace_check(ctx, events, name="trace"):
-    """Validate events with Trace_LZ; returns (bad indices 0-based, report)."""
+def trace_check(ctx, events, name="trace", chunk_bytes=48 << 20):
+    """Validate events with Trace_LZ; returns (bad indices 0-based, report).  The trace is cut into pieces of at most
+    chunk_bytes of JSON (events are independent of each other), one TLC run per piece, so that megabyte streams do not
+    have to sit in one JVM heap all at once."""
     if not events:
         raise vlib.ToolError("no events recorded")
-    tpath = ctx.path(name + ".ndjson")
-    vlib.write_ndjson(tpath, events)
-    t = ctx.tlc("Trace_LZ", "Trace_LZ.cfg", env={"TRACE": tpath}, workers=1, count=False, deque=True,
-                timeout=ctx.pick(600, 3000))
-    rep = t.tagged("R")
-    if len(rep) != 1 or rep[0]["n"] != len(events):
-        raise vlib.ToolError("trace not consumed: %s" % str(rep)[:300])
-    ctx.states += t.distinct          # decoder-machine steps taken over the real bytes
-    ctx.transitions += t.generated
-    return [i - 1 for i in rep[0]["bad"]], rep[0]
+    lines = [json.dumps(e, separators=(",", ":")) for e in events]
+    chunks, cur, size = [], [], 0
+    for k, ln in enumerate(lines):
+        if cur and size + len(ln) > chunk_bytes:
+            chunks.append(cur)
+            cur, size = [], 0
+        cur.append(k)
+        size += len(ln)
+    chunks.append(cur)
+    bad, total = [], {"n": 0, "bad": [], "nref": 0, "tally": {}}
+    for ci, idx in enumerate(chunks):
+        tpath = ctx.path("%s_%d.ndjson" % (name, ci))
+        with open(tpath, "w") as f:
+            for k in idx:
+                f.write(lines[k])
+                f.write("\n")
+        t = ctx.tlc("Trace_LZ", "Trace_LZ.cfg", env={"TRACE": tpath}, workers=1, count=False, deque=True,
+                    timeout=ctx.pick(600, 3000))
+        os.remove(tpath)
+        rep = t.tagged("R")
+        if len(rep) != 1 or rep[0]["n"] != len(idx):
+            raise vlib.ToolError("trace not consumed: %s" % str(rep)[:300])
+        ctx.states += t.distinct          # decoder-machine steps taken over the real bytes
+        ctx.transitions += t.generated
+        bad += [idx[i - 1] for i in rep[0]["bad"]]
+        total["n"] += rep[0]["n"]
+        total["nref"] += rep[0]["nref"]
+        for k, v in rep[0]["tally"].items():
+            total["tally"][k] = total["tally"].get(k, 0) + v
+    total["bad"] = [i + 1 for i in bad]
+    return bad, total
 
 
 def record_comp(ctx, fmt, profiles):
@@ -48,41 +72,84 @@ def record_comp(ctx, fmt, profiles):
     Returns deduplicated 'comp' events, each carrying the profiles that produced it."""
     bins = {p: ctx.build(p, BIN) for p in profiles}
     cpath = ctx.path("inputs_%s.ndjson" % fmt)
-    ctx.harness(bins[profiles[0]], ["inputs", fmt, cpath])
+    # the valid streams printed by the specification's generator (small family: bare LZ10 / LZ11, 0x13-wrapped) are
+    # plain inputs too: data that already looks like a stream must be compressed like any other
+    g = ctx.tlc("Gen_LZ", "Gen_LZ.cfg", env={"VERIF_TIER": ctx.tier, "GEN_FAM": "small"}, workers=6, count=False,
+                timeout=ctx.pick(300, 1200))
+    streams, seen_s = [], set()
+    for c in g.tagged("G"):
+        k = tuple(c["stream"])
+        if c["var"] in ("exact", "wrapped") and k not in seen_s:
+            seen_s.add(k)
+            streams.append({"stream": c["stream"]})
+    g.out = ""
+    if not streams:
+        raise vlib.ToolError("no generator streams to use as inputs")
+    spath = ctx.path("genstreams.ndjson")
+    vlib.write_ndjson(spath, streams)
+    ctx.extra["generator_streams_as_input"] = len(streams)
+    ctx.harness(bins[profiles[0]], ["inputs", fmt, cpath, spath])
     cases = vlib.read_ndjson(cpath)
     seen, events = {}, []
-    worst_alloc = 0
-    # both public entry points: LZ10/LZ13CompressionFormat directly and CompressionFormat::LZ10/LZ13 (same spec conditions)
-    for p, via in [(p, via) for p in profiles for via in VIAS]:
-        opath = ctx.path("comp_%s_%s_%s.ndjson" % (fmt, p, via))
-        res = ctx.isolated(bins[p], ["comp", cpath, opath], len(cases), opath, per_case_timeout=ctx.pick(30.0, 180.0),
-                           env={"VERIF_LZ_VIA": via})
-        if len(res) != len(cases):
-            raise vlib.ToolError("isolated run returned %d results for %d cases" % (len(res), len(cases)))
-        for r in res:
-            c = cases[r["i"]]
-            big = "pat" in c       # input given by its generator (pattern repeated to n bytes)
-            if "outcome" in r:
-                if big:
-                    ev = {"kind": "bigcomp", "fmt": fmt, "tag": c["tag"], "pat": c["pat"], "n": c["n"], "res": synth(r),
-                          "rt": {"kind": "none", "same": False, "len": 0, "msg": ""}}
+    worst_alloc = [0]
+
+    def one_pass(cases, cpath, tagname):
+        """isolated compress of every case through both public entry points (LZ10/LZ13CompressionFormat directly and
+        CompressionFormat::LZ10/LZ13, same spec conditions) under every profile; returns the new events"""
+        new = []
+        for p, via in [(p, via) for p in profiles for via in VIAS]:
+            opath = ctx.path("comp_%s_%s_%s_%s.ndjson" % (fmt, tagname, p, via))
+            res = ctx.isolated(bins[p], ["comp", cpath, opath], len(cases), opath, per_case_timeout=ctx.pick(30.0, 180.0),
+                               env={"VERIF_LZ_VIA": via})
+            if len(res) != len(cases):
+                raise vlib.ToolError("isolated run returned %d results for %d cases" % (len(res), len(cases)))
+            for r in res:
+                c = cases[r["i"]]
+                big = "pat" in c       # input given by its generator (pattern repeated to n bytes)
+                if "outcome" in r:
+                    if big:
+                        ev = {"kind": "bigcomp", "fmt": fmt, "tag": c["tag"], "pat": c["pat"], "n": c["n"], "res": synth(r),
+                              "rt": {"kind": "none", "same": False, "len": 0, "msg": ""}}
+                    else:
+                        ev = {"kind": "comp", "fmt": fmt, "tag": c["tag"], "input": c["input"], "res": synth(r),
+                              "rt": {"kind": "none", "out": [], "alloc": False, "msg": ""}}
                 else:
-                    ev = {"kind": "comp", "fmt": fmt, "tag": c["tag"], "input": c["input"], "res": synth(r),
-                          "rt": {"kind": "none", "out": [], "alloc": False, "msg": ""}}
-            else:
-                ev = {k: r[k] for k in (("kind", "fmt", "tag", "pat", "n", "res", "rt") if big else
-                                        ("kind", "fmt", "tag", "input", "res", "rt"))}
-                worst_alloc = max(worst_alloc, r.get("max_alloc", 0))
-            key = json.dumps([c.get("input"), c.get("pat"), c.get("n"), ev["res"]["kind"], ev["res"]["out"], ev["rt"]["kind"],
-                              ev["rt"].get("out"), ev["rt"].get("same")])
-            if key in seen:
-                seen[key]["profiles"].append(p)
-                seen[key]["via"].append(via)
-            else:
-                ev["profiles"] = [p]
-                ev["via"] = [via]
-                seen[key] = ev
-                events.append(ev)
+                    ev = {k: r[k] for k in (("kind", "fmt", "tag", "pat", "n", "res", "rt") if big else
+                                            ("kind", "fmt", "tag", "input", "res", "rt"))}
+                    worst_alloc[0] = max(worst_alloc[0], r.get("max_alloc", 0))
+                key = json.dumps([c.get("input"), c.get("pat"), c.get("n"), ev["res"]["kind"], ev["res"]["out"], ev["rt"]["kind"],
+                                  ev["rt"].get("out"), ev["rt"].get("same")])
+                if key in seen:
+                    if (p, via) not in zip(seen[key]["profiles"], seen[key]["via"]):   # the same input may be listed twice
+                        seen[key]["profiles"].append(p)
+                        seen[key]["via"].append(via)
+                else:
+                    ev["profiles"] = [p]
+                    ev["via"] = [via]
+                    seen[key] = ev
+                    events.append(ev)
+                    new.append(ev)
+        return new
+
+    level = one_pass(cases, cpath, "base")
+    # compress(compress(x)) chains: the streams just produced (a spread over all input families, streams up to 2 KB)
+    # are inputs of a second pass, and the results of that pass inputs of a third
+    n_chain = 0
+    for depth in (1, 2):
+        pool = [e for e in level if e["kind"] == "comp" and e["res"]["kind"] == "ok" and 0 < len(e["res"]["out"]) <= 2048
+                and e["tag"] not in ("all2", "all3", "headerlike", "genstream")]
+        small = [e for e in level if e["kind"] == "comp" and e["res"]["kind"] == "ok" and e["tag"] in ("all2", "all3", "genstream")]
+        pool += small[:: max(1, len(small) // 150)]
+        chain = [{"fmt": fmt, "tag": "chain%d" % depth, "input": e["res"]["out"]} for e in pool]
+        if not chain:
+            break
+        ccpath = ctx.path("inputs_%s_chain%d.ndjson" % (fmt, depth))
+        vlib.write_ndjson(ccpath, chain)
+        level = one_pass(chain, ccpath, "chain%d" % depth)
+        cases = cases + chain
+        n_chain += len(chain)
+    ctx.extra["chain_inputs"] = n_chain
+    worst_alloc = worst_alloc[0]
     ctx.extra["inputs"] = len(cases)
     ctx.extra["entry_points"] = list(VIAS)
     ctx.extra["profiles"] = list(profiles)
@@ -105,6 +172,8 @@ def check_comp(ctx, fmt, profiles):
                       {"event": ev})
     ctx.traces += len(events)
     ctx.evaluations += len(cases) * len(profiles) * len(VIAS)
+    if not ctx.extra.get("chain_inputs"):
+        raise vlib.ToolError("no compress(compress(x)) chain inputs were produced")
     ctx.nontrivial += rep["nref"]
     ctx.extra["events_with_back_reference"] = rep["nref"]
     ctx.extra["terminal_classes"] = rep["tally"]
@@ -159,6 +228,9 @@ def run(ctx):
                 "CompressionFormat::LZ10); the stream is decoded by the TLA+ decoder "
                 "machine at the real constants; plus size-boundary inputs given by generator (run / period 3, 17, 4096 repeated to "
                 "0xFFFF..0x10001, 65810, 65811, 70000, 0x20000, 140000 and 16 MiB-2, 16 MiB-1 bytes) judged by the validating "
+                "decoder; plus inputs that look like streams: every valid stream of the spec generator's small family, every "
+                "header-like start (type 0x10/0x11/0x13/0x00, length 0..5) x every tail over {0,a} up to 5/7 bytes, and "
+                "compress(x) / compress(compress(x)) chains; all judged by the same "
                 "decoder (same layouts and checks, out replaced by the known expected output). Non-trivial = event whose stream made the decoder take >= 1 BackRef step "
                 "(counted by TLC)." % (ctx.pick(7, 9), ctx.pick(11, 14), ctx.pick(7, 9)))
     profiles = ctx.pick(["release"], ["release", "checked"])
